@@ -665,6 +665,9 @@ func truncate(s string, n int) string {
 }
 
 func (o *atomObs) BlockDone(s *Sim, prev, next *State, blk bookkeeping.Block, delta ledgercore.StateDelta) {
+	if dbgAtom {
+		s.log.Add("dbg hdr r%d expired=%v absent=%v proposer=%s payout=%d fees=%d txnroot=%s counter=%d", blk.Round(), blk.ExpiredParticipationAccounts, blk.AbsentParticipationAccounts, blk.Proposer(), blk.ProposerPayout().Raw, blk.FeesCollected.Raw, blk.TxnCommitments.NativeSha512_256Commitment, blk.TxnCounter)
+	}
 	groups, err := blk.DecodePaysetGroups()
 	if err != nil {
 		s.harness = "DecodePaysetGroups: " + err.Error()
